@@ -636,8 +636,27 @@ void Exec::step(const Step &s) {
         long max_msg0 = lim_cfg.max_message_unix_fds >= 0 ? lim_cfg.max_message_unix_fds : 16;
         if (nf > max_msg0) nf = max_msg0;
         fd_delta = -nf;
+        fd_at = 0;   // (with descriptors pending the loader reads message by message and takes descriptors only with a message's first byte; attached further in they are discarded by the kernel and never pending)
         more_surplus = true;
         counters["probe:more_surplus_fds_while_pending"]++;
+        // "held only for that connection, within its per-connection limit": the loader has room for
+        // max_message_unix_fds descriptors in all; a write whose descriptors do not fit beside the pending ones
+        // is truncated by the kernel and the connection is dropped - nothing of that message is processed
+        if (fd_pending_surplus[ci] + nf > max_msg0) {
+          if (!s.S(1).empty()) m.set_field(wire::F_PATH, wire::Value::path(s.S(1)));
+          std::vector<int> sfds;
+          for (long i = 0; i < nf; i++) { int fd = memfd_create("simfd", MFD_CLOEXEC); if (fd < 0) core::harness_error("memfd_create failed"); sfds.push_back(fd); }
+          c.next_serial = m.serial + 1;
+          w.queue_msg(ci, m, std::move(sfds), 0);
+          w.C(ci).sent.pop_back();            // never to be processed
+          w.deliver(ci, -1);
+          md.conns[(size_t)ci].expect_closed = true;
+          md.conns[(size_t)ci].close_prop = "C15";
+          counters["probe:surplus_beyond_loader_room"]++;
+          note("c" + std::to_string(ci) + ":send-surplus-beyond-room(pending=" + std::to_string(fd_pending_surplus[ci]) + ",attached=" + std::to_string(nf) + ")");
+          return;
+        }
+        fd_pending_surplus[ci] += nf;
         tr.ev("more surplus c%d nf=%ld", ci, nf);
       }
       long hdr = nf + fd_delta < 0 ? 0 : nf + fd_delta;
@@ -675,7 +694,7 @@ void Exec::step(const Step &s) {
       }
       ids.resize((size_t)hdr);
       fd_idents[{ci, m.serial}] = ids;
-      if (hdr < nf && !more_surplus) { fd_surplus_sent[ci] = m.serial; counters["probe:surplus_fds_sent"]++; }   // the clock of pending_fd_timeout starts when the bus has read it (on_dispatch)
+      if (hdr < nf && !more_surplus) { fd_surplus_sent[ci] = m.serial; fd_pending_surplus[ci] = nf - hdr; counters["probe:surplus_fds_sent"]++; }   // the clock of pending_fd_timeout starts when the bus has read it (on_dispatch)
     }
     {
       wire::Limits wl;
